@@ -120,8 +120,27 @@ func GenRandom(out string, seed int64, n, maxn, nq int) error {
 			}
 			return []int{r.Intn(33), r.Intn(33), r.Intn(33)}
 		}
+		// closest/contain queries are cheap: four times as many, and for
+		// segments and triangles a share of them on the extension of an edge
+		// beyond its end points (in the element's plane, outside the element:
+		// where an element-level closest point is most easily wrong)
+		for k := 0; k < 4*nq; k++ {
+			q := qp()
+			if (c.Kind == "tri" || c.Kind == "line") && len(c.Idx) >= 2 && k%3 == 0 {
+				i := r.Intn(len(c.Idx) - 1)
+				if c.Kind == "tri" {
+					i = 3*(i/3) + r.Intn(2)
+				}
+				a, b := c.Verts[c.Idx[i]], c.Verts[c.Idx[i+1]]
+				t := []int{-2, -1, 2, 3}[r.Intn(4)]
+				e := []int{a[0] + t*(b[0]-a[0]), a[1] + t*(b[1]-a[1]), a[2] + t*(b[2]-a[2])}
+				if e[0] >= -28 && e[0] <= 60 && e[1] >= -28 && e[1] <= 60 && e[2] >= -28 && e[2] <= 60 {
+					q = e
+				}
+			}
+			c.QPts = append(c.QPts, q)
+		}
 		for k := 0; k < nq; k++ {
-			c.QPts = append(c.QPts, qp())
 			q := qp()
 			rad := []int{r.Intn(13), 1}
 			switch r.Intn(4) {
